@@ -301,6 +301,9 @@ var ops = []cop{
 	{"PreHashSchnorrMessage(tag B)", false, func(e *env) []byte {
 		return errOr(bitcoin.PreHashSchnorrMessage("verif/C20 another tag B", e.msg))
 	}, func(e *env) []byte { return ref.TaggedHash("verif/C20 another tag B", []byte("verif/C20 message")) }},
+	{"SetUniformBytes(48 zero bytes: the exceptional argument of the map)", true, func(e *env) []byte {
+		return new(secp256k1.Point).SetUniformBytes(make([]byte, 48)).UncompressedBytes()
+	}, func(e *env) []byte { return ref.MapToCurve(new(big.Int)).Uncompressed() }},
 	{"K.Sign(RFC 6979, shared default options)", true, func(e *env) []byte {
 		return errOr(e.K.Sign(secec.RFC6979SHA256(), e.digest, e.optS))
 	}, func(e *env) []byte { return e.sigDER }},
